@@ -105,12 +105,33 @@ class C20(Prop):
                 yield c
             elif r < 0.8:
                 yield self.gen_history(rng, i)
+            elif r < 0.84:
+                dd = c19.gen_ds(rng, netcdf3=True)
+                if not dd["dims"] or not dd["vars"]:
+                    continue
+                for v in dd["vars"].values():
+                    v["vkind"] = "f"
+                d = rng.choice(dd["dims"])
+                ax = dd["axes"][d]
+                pos = rng.random() < 0.4
+                ix, kind = c01.PROP.gen_ix_pos(rng, len(ax["labels"])) if pos else c01.PROP.gen_ix_label(rng, dict(ax, _order="?"))
+                names = rng.choice([None, "list", "list"])
+                having = sorted(k for k, v in dd["vars"].items() if d in v["dims"])
+                if not having:
+                    continue
+                yield {"op": "dsread", "ds": dd, "dim": d, "ix": ix, "mode": "position" if pos else "label", "_ixkind": kind,
+                       # (the listed variables include one that has the indexed dimension: otherwise the loaded
+                       #  Dataset does not have the dimension at all and there is nothing to compare with)
+                       "names": None if names is None else sorted(set(rng.sample(sorted(dd["vars"]), rng.randint(1, len(dd["vars"]))) + [rng.choice(having)])),
+                       "seed": i}
             elif r < 0.88:
-                arr = gen.rand_array(rng, rank=rng.choice([1, 2]), maxn=3, minn=1)
+                arr = gen.rand_array(rng, rank=rng.choice([1, 2, 2, 3]), maxn=3, minn=1)
                 arr["vkind"] = "f"
-                arr["axes"][0]["kind"] = "i"
-                arr["axes"][0]["labels"] = [["n", k, 1] for k in range(len(arr["axes"][0]["labels"]))]
-                yield {"op": "unlimited", "array": gen.clean(arr), "extra": rng.randint(1, 2), "seed": i}
+                u = rng.randrange(len(arr["axes"]))
+                arr["axes"][u]["kind"] = "i"
+                arr["axes"][u]["labels"] = [["n", 2000 + 3 * k, 1] for k in range(len(arr["axes"][u]["labels"]))]
+                yield {"op": "unlimited", "array": gen.clean(arr), "extra": rng.randint(1, 2), "udim": u,
+                       "how": rng.choice(["list", "list", "slice"]), "seed": i}
             else:
                 dd = c19.gen_ds(rng, netcdf3=True)
                 if not dd["dims"] or not dd["vars"]:
@@ -140,11 +161,25 @@ class C20(Prop):
             for ax in arr["axes"]:
                 ix, k = c01.PROP.gen_ix_pos(rng, len(ax["labels"])) if pos else c01.PROP.gen_ix_label(rng, ax)
                 ixs.append(ix); kinds.append(k)
-            steps.append({"kind": "write" if rng.random() < 0.6 else "read", "option": "label",
-                          "spelling": rng.choice(["ix", "iloc"]) if pos else rng.choice(["getitem", "loc"]),
-                          "mode": "position" if pos else "label", "as_array": rng.random() < 0.3,
-                          "index": {"form": "tuple", "ix": ixs}, "_ixkinds": kinds,
-                          "rhs": rng.choice(["scalar", "scalar", "array", "array_bcast"])})
+            st = {"kind": "write" if rng.random() < 0.6 else "read", "option": "label",
+                  "spelling": rng.choice(["ix", "iloc"]) if pos else rng.choice(["getitem", "loc"]),
+                  "mode": "position" if pos else "label", "as_array": rng.random() < 0.3,
+                  "index": {"form": "tuple", "ix": ixs}, "_ixkinds": kinds,
+                  "rhs": rng.choice(["scalar", "scalar", "array", "array_bcast"])}
+            if not pos and rng.random() < 0.3 and any(ax["kind"] in "if" and ax["labels"] for ax in arr["axes"]):
+                # nearest-label access with a tolerance: requests a little off the stored labels
+                st["spelling"] = "take"
+                st["tol"] = rng.choice([["fin", 1, 2], ["fin", 1, 4], ["inf"]])
+                st["as_array"] = False
+                for d, ax in enumerate(arr["axes"]):
+                    if ax["kind"] in "if" and ax["labels"] and rng.random() < 0.8:
+                        def near():
+                            b = rng.choice(ax["labels"])
+                            v = Fraction(b[1], b[2]) + Fraction(rng.choice([-3, -1, 0, 1, 2, 5]), 8)
+                            return ["n", v.numerator, v.denominator]
+                        ixs[d] = ["sc", near()] if rng.random() < 0.5 else ["li", [near() for _ in range(rng.randint(1, 3))]]
+                        kinds[d] = "tol"
+            steps.append(st)
         return {"op": "history", "array": arr, "steps": steps, "seed": i}
 
     def plan(self, c):
@@ -245,6 +280,15 @@ class C20(Prop):
                     return {"ok": {"got": got, "expected": exp}}
                 if c["op"] == "history":
                     return self.history(c, paths)
+                if c["op"] == "dsread":
+                    ds = c19.build_ds(c["ds"])
+                    p = self.path(c); paths.append(p)
+                    ds.write_nc(p)
+                    key = c01.py_index(c["ix"], {"kind": "i"} if c["mode"] == "position" else c["ds"]["axes"][c["dim"]])
+                    got = core.guarded(lambda: c19.obs_dataset(da.read_nc(p, c["names"], indices={c["dim"]: key}, indexing=c["mode"])))
+                    mem = da.read_nc(p, c["names"])
+                    exp = core.guarded(lambda: c19.obs_dataset(mem.take(indices={c["dim"]: key}, indexing=c["mode"])))
+                    return {"ok": {"got": got, "expected": exp, "multi": True}}
                 if c["op"] == "unlimited":
                     p = self.path(c); paths.append(p)
                     return self.unlimited(c, paths)
@@ -281,19 +325,20 @@ class C20(Prop):
         with the supplied labels"""
         a = core.build_array(c["array"], 0)
         p = paths[0]
-        dim0 = a.dims[0]
+        u = c.get("udim", 0)
 
         def run():
             f = da.open_nc(p, mode="w")
-            f.axes.append(dim0)                   # str => unlimited dimension
-            for ax in a.axes[1:]:
-                f.axes.append(ax)
+            for k, ax in enumerate(a.axes):
+                f.axes.append(ax.name if k == u else ax)      # str => unlimited dimension
             f.nc.createVariable("v", float, a.dims)
-            n = a.shape[0]
+            n = a.shape[u]
             for i in range(n):
-                # writing one slice beyond the current end of the unlimited dimension extends the
-                # axis with the labels supplied by the assigned DimArray
-                f["v"].ix[[i]] = a.ix[[i]]
+                # writing beyond the current end of the unlimited dimension extends the axis with the labels
+                # supplied by the assigned DimArray
+                sel = [i] if c.get("how", "list") == "list" else slice(i, i + 1)
+                key = tuple(sel if k == u else slice(None) for k in range(a.ndim))
+                f["v"].ix[key] = a.ix[key]
             f.close()
             return obs(da.read_nc(p, "v"))
         got = core.guarded(run)
@@ -312,12 +357,12 @@ class C20(Prop):
                 steps.append({"kind": st["case"]["kind"], "index": st["case"]["index"], "cfg": cfg, "rshape": st["rshape"],
                               "base": st["base"]})
             return {"op": "ondisk_history", "arrays": [core.lean_array(gen.clean(c["array"]), None)], "steps": steps}
-        if c["op"] == "unlimited":
+        if c["op"] == "unlimited" and c.get("udim", 0) == 0:
             arr = c["array"]
             n0 = len(arr["axes"][0]["labels"])
             rec = int(np.prod([len(ax["labels"]) for ax in arr["axes"][1:]])) if len(arr["axes"]) > 1 else 1
             start = dict(arr, axes=[dict(arr["axes"][0], labels=[])] + arr["axes"][1:])
-            steps = [{"kind": "record", "pos": i, "label": ["n", i, 1], "base": i * rec, "n": rec} for i in range(n0)]
+            steps = [{"kind": "record", "pos": i, "label": arr["axes"][0]["labels"][i], "base": i * rec, "n": rec} for i in range(n0)]
             return {"op": "ondisk_history", "arrays": [core.lean_array(gen.clean(start), None)], "steps": steps}
         return {"op": "union", "a": {"name": "x", "kind": "i", "labels": []}, "b": {"name": "x", "kind": "i", "labels": []}, "join": "outer"}
 
@@ -345,7 +390,7 @@ class C20(Prop):
                 elif ("err" in l) != ("err" in r["got"]) or ("err" in l and l["err"] != r["got"]["err"]):
                     bad.append("lean.step%d.outcome" % k)
             bad += ["lean.final." + x for x in self.cmp_lean({"ok": ans["final"]}, o["got"], env)]
-        elif c["op"] == "unlimited":
+        elif c["op"] == "unlimited" and c.get("udim", 0) == 0:
             a = core.build_array(c["array"], 0)
             env = core.CellEnv([a.values], rhs=np.asarray(a.values, dtype=float).reshape(-1))
             if any("err" in l for l in ans["lib"]):
@@ -427,6 +472,10 @@ class C20(Prop):
                 f["ix:" + k] = 1
         if c["op"] == "multi":
             f["how"] = c["how"]
+        if c["op"] == "dsread":
+            f["mode"] = c["mode"]; f["ix:" + c["_ixkind"]] = 1; f["names"] = "all" if c["names"] is None else "list"
+            if "ok" in io:
+                f["both_error"] = "err" in io["ok"]["got"]
         return f
 
     def size(self, c):
